@@ -116,15 +116,35 @@ theorem inflightComplete_nil (l : List TEv)
     exact absurd heq (hR i c k cl t)
   · rfl
 
+theorem retFlipAt_isT {l : List TEv} {i : Nat} (h : retFlipAt l.toArray i = true) : holdsAt l isT i := by
+  unfold retFlipAt at h
+  rw [evAt_list] at h
+  split at h
+  · rename_i k err t heq; exact ⟨_, heq, rfl⟩
+  · simp at h
+
+theorem flipAt_isFlipWitness {l : List TEv} {i : Nat} (h : flipAt l.toArray i = true) : holdsAt l isFlipWitness i := by
+  unfold flipAt at h
+  rw [Bool.or_eq_true] at h
+  rcases h with h | h
+  · rw [evAt_list] at h
+    split at h
+    · rename_i j t heq; exact ⟨_, heq, rfl⟩
+    · simp at h
+  · obtain ⟨e, he, hp⟩ := retFlipAt_isT h
+    refine ⟨e, he, ?_⟩
+    cases hev : e.ev <;> simp [hev, isT] at hp
+    rfl
+
 theorem closeAfterShutdown_nil (l : List TEv)
-    (h : ∀ (f i j c k : Nat) b t t', f < i → i < j → holdsAt l isFlipWitness f → l[i]? = some (TEv.mk (.X c k b) t) →
+    (h : ∀ (f i j c k : Nat) b t t', f < i → i < j → flipAt l.toArray f = true → l[i]? = some (TEv.mk (.X c k b) t) →
       l[j]? = some (TEv.mk (.R c k false true) t') → False) : closeAfterShutdown l.toArray = [] := by
   unfold closeAfterShutdown
   simp only
   split
   · rfl
   · rename_i f hf
-    have hf' := (idxOf?_some hf).1
+    have hf' := List.find?_some hf
     split
     · rfl
     · rw [List.filterMap_eq_nil_iff]
@@ -294,13 +314,20 @@ theorem errOf_some {l : List TEv} {k : Nat} {err : String} (h : errOf l.toArray 
   have := hl1 _ (List.mem_of_getElem? hh)
   simp at this
 
-theorem errorsReported_nil (l : List TEv)
+theorem timeAt_list {l : List TEv} {i : Nat} {e : TEv} (h : l[i]? = some e) : timeAt l.toArray i = e.t := by
+  simp [timeAt, evAt_list, h]
+
+theorem anyRange_iff (n : Nat) (f : Nat → Bool) : (List.range n).any f = true ↔ ∃ j, j < n ∧ f j = true := by
+  simp [List.any_eq_true]
+
+theorem errorsReported_nil (p : Params) (l : List TEv)
     (h : ∀ (i k ts : Nat), l[i]? = some (TEv.mk (.S k) ts) → ∀ (r : Nat) (err : String) (tr' : Nat),
       l[r]? = some (TEv.mk (.T k err) tr') → (∀ (j : Nat) e t, j < r → l[j]? ≠ some (TEv.mk (.T k e) t)) →
-      ((¬ (∃ j, j < i ∧ holdsAt l (· == .L) j) ∨ (∃ j, j < i ∧ holdsAt l isT j)) → err = "notrunning") ∧
-      ((∃ j, j < i ∧ holdsAt l (· == .L) j) → (¬ ∃ j, j < i ∧ holdsAt l isT j) →
-         (¬ ∃ (j k' t : Nat), j < r ∧ k' ≠ k ∧ l[j]? = some (TEv.mk (.S k') t)) → err = "nil")) :
-    errorsReported l.toArray = [] := by
+      ((¬ (∃ j, j < r ∧ holdsAt l (· == .L) j) ∨ (∃ j, j < i ∧ retFlipAt l.toArray j = true)) → err = "notrunning") ∧
+      ((∃ j, j < i ∧ holdsAt l (· == .L) j) → (¬ ∃ j, j < i ∧ retFlipAt l.toArray j = true) →
+         (¬ ∃ (j k' t : Nat), j < r ∧ k' ≠ k ∧ l[j]? = some (TEv.mk (.S k') t)) →
+         err = "nil" ∨ (err = "timeout" ∧ p.maxWait < tr' - ts))) :
+    errorsReported p l.toArray = [] := by
   unfold errorsReported
   rw [List.filterMap_eq_nil_iff]
   intro i _
@@ -313,10 +340,18 @@ theorem errorsReported_nil (l : List TEv)
     · rename_i err herr
       obtain ⟨r, t, hr, hmin⟩ := errOf_some herr
       obtain ⟨h1, h2⟩ := h i k ts heq r err t hr hmin
+      have hidx : ∀ q : Ev → Bool, (∀ e, q e = true ↔ ∃ err, e = .T k err) → idxOf? l.toArray q = some r := by
+        intro q hq
+        apply idxOf?_of_first ⟨_, hr, (hq _).2 ⟨_, rfl⟩⟩
+        rintro j hj ⟨⟨ev, t'⟩, he, hp⟩
+        obtain ⟨e', rfl⟩ := (hq _).1 hp
+        exact hmin j _ t' hj he
       split
       · rename_i hc
         exfalso
-        simp only [Bool.and_eq_true, Bool.or_eq_true, Bool.not_eq_true', bne_iff_ne, ne_eq] at hc
+        rw [hidx _ (fun e => ?hq)] at hc
+        case hq => cases e <;> simp
+        simp only [Option.getD_some, Bool.and_eq_true, Bool.or_eq_true, Bool.not_eq_true', bne_iff_ne, ne_eq] at hc
         obtain ⟨hc1, hc2⟩ := hc
         apply hc2
         apply h1
@@ -325,28 +360,27 @@ theorem errorsReported_nil (l : List TEv)
           rw [← existsBefore_iff]
           simp [hc1]
         · right
-          rw [← existsBefore_iff]
-          exact hc1
+          exact (anyRange_iff _ _).1 hc1
       · split
         · rename_i hc
           exfalso
-          simp only [Bool.and_eq_true, Bool.not_eq_true', bne_iff_ne, ne_eq] at hc
-          obtain ⟨⟨⟨hc1, hc2⟩, hc3⟩, hc4⟩ := hc
-          apply hc4
-          apply h2
-          · rw [← existsBefore_iff]; exact hc1
-          · rw [← existsBefore_iff]; simp [hc2]
-          · rintro ⟨j, k', t', hj, hk, he⟩
-            refine existsBefore_getD_false hc3 ⟨_, hr, by simp⟩ ?_ j hj ⟨_, he, by simpa using hk⟩
-            rintro j hj ⟨⟨ev, t'⟩, he, hp⟩
-            cases ev <;> simp at hp
-            subst hp
-            exact hmin j _ t' hj he
+          rw [hidx _ (fun e => ?hq)] at hc
+          case hq => cases e <;> simp
+          simp only [Option.getD_some, timeAt_list hr, Bool.and_eq_true, Bool.not_eq_true', bne_iff_ne, ne_eq] at hc
+          obtain ⟨⟨⟨⟨hc1, hc2⟩, hc3⟩, hc4⟩, hc5⟩ := hc
+          have := h2 ((existsBefore_iff _ _ _).1 hc1)
+            (by intro hh; rw [(anyRange_iff _ _).2 hh] at hc2; simp at hc2)
+            (by
+              rintro ⟨j, k', t', hj, hk, he⟩
+              rw [Bool.eq_false_iff] at hc3
+              exact hc3 ((existsBefore_iff _ _ _).2 ⟨j, hj, _, he, by simpa using hk⟩))
+          rcases this with h | ⟨h, h'⟩
+          · exact hc4 h
+          · subst h
+            simp at hc5
+            omega
         · rfl
   · rfl
-
-theorem timeAt_list {l : List TEv} {i : Nat} {e : TEv} (h : l[i]? = some e) : timeAt l.toArray i = e.t := by
-  simp [timeAt, evAt_list, h]
 
 theorem hooksRun_nil (p : Params) (l : List TEv)
     (hA : ∀ w, holdsAt l isTnil w → ∀ j, j < p.nHooks → ∃ i, holdsAt l (· == .HS j) i)
